@@ -19,9 +19,12 @@ transactions by the USB2 host model (rv/usb2host.py): existing and missing descr
 the table, index between / beyond sparse indices), wLength in {1, 2, len-1, len, len+1, mps-1, mps, mps+1, k*mps,
 255, 256, 0xFFFF, random}; tx_ready back-pressure profiles; hostile histories: host ACK lost (host re-issues the IN,
 the same packet must come again), foreign traffic between the retries (IN to another address followed by the
-host's ACK to that device, IN to the second endpoint + ACK, OUT+DATA to another address, SOF), data stage ended
-early by the host (status stage after k packets), transfer abandoned without status stage followed by a new SETUP,
-request for a missing descriptor directly before / after a good one.
+host's ACK to that device, IN to the second endpoint + ACK, OUT+DATA to another address, SOF), the same foreign
+traffic between ACKed packets and between the SETUP and the first IN, ACK to the *final* packet lost (host goes on
+to the status stage), data stage ended early by the host (status stage after k packets), transfer abandoned
+without status stage followed by a new SETUP, request for a missing descriptor directly before / after a good one.
+Every packet the device transmits must be the answer to a host packet (unsolicited packets are violations).
+A session stops at its first violation (later transfers would only show follow-up damage).
 Workload, stand-alone: 25-60 requests per session: (value, length, start_position) with start positions 0, k*mps,
 arbitrary positions inside the descriptor, position == descriptor length (ZLP case), random tx.ready stalls.
 
@@ -35,6 +38,12 @@ desc[sp : sp + min(mps, length - sp)], `stall` pulses for a missing descriptor a
 A python `icontract` post-condition around GetDescriptorHandlerBlock.generate_rom_content decodes the ROM image per
 the documented layout (type table -> index table -> data; big-endian (count|length, address) words) and requires
 every (type, index) to round-trip and every absent type to have count 0.
+
+Deviations from DESIGN.md section 7: the workload is wider (hostile host histories, mux with runtime descriptors,
+unsolicited-packet accounting); in stand-alone mode a ZLP indication that is held until tx.ready is a violation
+(the packet generator never raises ready for a ZLP, the in-device sessions show the resulting babble).
+Known findings are classified by the stimulus history (see findings/C09.md), everything else keeps content-based
+mechanism names.
 
 Not judged: data PIDs/toggles, SETUP/status-stage handshakes (C07), response latency (bounded only), wLength == 0
 (no data stage), start positions beyond the descriptor or beyond wLength (not reachable by a host that stops after
@@ -241,6 +250,17 @@ def classify_request(setup, res, key, wlength, n, variant_of_key):
         res.bin("runtime_descriptor_requested")
 
 
+def tiny_rom(setup):
+    """largest descriptor that goes into the block handler's ROM is shorter than 4 bytes"""
+    if setup.variant == "distributed":
+        return False
+    rom = [len(v) for k, v in setup.table.items() if k not in setup.runtime]
+    return bool(rom) and max(rom) <= 3
+
+
+TINY_ROM_MECH = "block_handler_fails_to_elaborate_when_largest_rom_descriptor_is_below_4_bytes"
+
+
 # --------------------------------------------------------------------------------------------- ROM post-condition
 
 class RomContract:
@@ -340,6 +360,11 @@ def run_device(rng, tier, res, setup):
             b = Bench(dev, domain="usb", freq=60e6, max_cycles=90000)
     except icontract.ViolationError as e:
         res.violation("rom_image_roundtrip_wrong", "%s :: %s" % (setup.describe(), contract.failed or str(e)[:300]))
+        return
+    except IndexError as e:
+        if not tiny_rom(setup):
+            raise
+        res.violation(TINY_ROM_MECH, "%s :: IndexError: %s" % (setup.describe(), e))
         return
     ready_profile = rng.choice(["always", "always", ("random", 0.7), ("random", 0.4), ("bursty", 6, 12), ("every", 2), ("every", 3)])
     if ready_profile != "always":
@@ -665,7 +690,7 @@ def run_device(rng, tier, res, setup):
                 wlength = setup.draw_wlength(rng, nlen)
                 if nlen % mps == 0 and rng.random() < 0.5:
                     wlength = rng.choice([nlen + 1, nlen + mps, 0xFFFF, 255 if nlen < 255 else 0xFFFF, nlen])
-                scenario = rng.choice(["normal", "normal", "normal", "interleave", "lost_ack", "lost_ack_foreign", "lost_ack_foreign",
+                scenario = rng.choice(["normal", "normal", "interleave", "interleave", "lost_ack", "lost_ack_foreign", "lost_ack_foreign",
                                        "early_status", "abandon", "lost_final_ack", "lost_final_ack"])
                 if prev_missing:
                     res.bin("missing_then_good")
@@ -724,6 +749,11 @@ def run_standalone(rng, tier, res, setup):
             b = Bench(dut, domain="usb", freq=60e6, max_cycles=60000)
     except icontract.ViolationError as e:
         res.violation("rom_image_roundtrip_wrong", "%s :: %s" % (setup.describe(), contract.failed or str(e)[:300]))
+        return
+    except IndexError as e:
+        if not tiny_rom(setup):
+            raise
+        res.violation(TINY_ROM_MECH, "%s :: IndexError: %s" % (setup.describe(), e))
         return
     tx = dut.tx
     b.watch(dut.value, dut.length, dut.start_position, dut.start, dut.stall, tx.valid, tx.ready, tx.first, tx.last, tx.payload)
